@@ -94,6 +94,9 @@ var lits = []litSpec{
 	{dir: "weed/topology", fn: "Topology.batchVacuumVolumeCheck", coq: "batchVacuumVolumeCheck_cmp", pattern: "resp.GarbageRatio == garbageThreshold", kind: "op"},
 	{dir: "weed/topology", fn: "Topology.batchVacuumVolumeCheck", coq: "batchVacuumVolumeCheck_timeoutDivisor", pattern: "t.volumeSizeLimit/1024/1024/_ + 1"},
 	{dir: "weed/topology", fn: "Topology.batchVacuumVolumeCompact", coq: "batchVacuumVolumeCompact_timeoutFactor", pattern: "_ * time.Minute * __"},
+	{dir: "weed/topology", fn: "NodeImpl.CollectDeadNodeAndFullVolumes", coq: "CollectFull_cmp", pattern: "v.Size == volumeSizeLimit", kind: "op"},
+	{dir: "weed/topology", fn: "NodeImpl.CollectDeadNodeAndFullVolumes", coq: "CollectCrowded_cmp", pattern: "float64(v.Size) == float64(volumeSizeLimit)*growThreshold", kind: "op"},
+	{dir: "weed/topology", fn: "VolumeLayout.isOversized", coq: "isOversized_cmp", pattern: "uint64(v.Size) == vl.volumeSizeLimit", kind: "op"},
 	{dir: "weed/filer", fn: "ViewFromVisibleIntervals", coq: "ViewFromVisibleIntervals_toEnd", pattern: "size == _"},
 	{dir: "weed/filer", fn: "ViewFromChunks", coq: "ViewFromChunks_stop", pattern: "stop = _"},
 	{dir: "weed/s3api", fn: "S3ApiServer.genUploadsFolder", coq: "genUploadsFolder_format", pattern: "fmt.Sprintf(_, __, __)", kind: "string"},
